@@ -379,9 +379,18 @@ class Impl:
         raise RuntimeError("bad-op")
 
 
-def run_impl(case):
+def _run_impl(case):
     impl = Impl()
     return [impl.do(op) for op in case["ops"]]
+
+
+def run_impl(case):
+    """In a forked child: a container the code left incoherent can crash the unchecked Cython indexing."""
+    from common import sandbox
+    res = sandbox.run_forked(_run_impl, case, timeout=120)
+    if res[0] == "ok":
+        return res[1]
+    return ["CRASH:" + ":".join(str(x) for x in res)[:120]]
 
 
 # ------------------------------------------------------------------ reference: a plain list of atom objects
@@ -819,6 +828,16 @@ def _shares(a, b):
 
 
 def oracle(case):
+    from common import sandbox
+    res = sandbox.run_forked(_oracle, case, timeout=120)
+    if res[0] == "ok":
+        return res[1]
+    if res[0] == "err":
+        raise RuntimeError(f"oracle raised {res[1]}: {res[2]}")
+    return [("C01/crash/" + "-".join(str(x) for x in res), f"the real code crashed the process ({res}) on {(case.get('ops') or [])[:3]}...")]
+
+
+def _oracle(case):
     ops = case.get("ops") or []
     impl, ref = Impl(), Ref()
     for k, op in enumerate(ops):
@@ -975,7 +994,7 @@ class Gen:
             pairs.add((min(i, j), max(i, j)))
         return enc_bonds([(i, j, rng.randint(0, 8)) for i, j in sorted(pairs)])
 
-    def new(self, d, stack=None, like=None):
+    def new(self, d, stack=None, like=None, vary_box=False):
         rng = self.rng
         stack = rng.random() < 0.4 if stack is None else stack
         n = rng.choice([0, 1, 2, 3, 3, 4, 5, 5, 6, 7, 9]) if like is None else len(like.atoms)
@@ -989,6 +1008,8 @@ class Gen:
         box = None if rng.random() < 0.4 else [self.c() for _ in range(depth)]
         if like is not None:
             box = None if like.boxes is None else [self.c() for _ in range(depth)]
+            if vary_box and rng.random() < 0.25:
+                box = [self.c() for _ in range(depth)] if box is None else None
             bonds = enc_bonds(sorted(_bondset(like))) if like.bonds is not None else "-"
         else:
             bonds = self.bonds(n)
@@ -1075,7 +1096,7 @@ class Gen:
                     return self.new(d, stack=False)
                 others = [x for x in REGS if x != src][:k - 1]
                 for x in others:
-                    self.new(x, stack=False, like=self.ref.r[src])
+                    self.new(x, stack=False, like=self.ref.r[src], vary_box=True)
                 lst = [src] + others
                 rng.shuffle(lst)
             else:
@@ -1204,7 +1225,7 @@ def _exhaustive(rng):
 
 
 def cases(rng, tier):
-    n_hist, n_mal = (330, 50) if tier == "quick" else (6000, 800)
+    n_hist, n_mal = (800, 120) if tier == "quick" else (8000, 1000)
     for _ in range(n_hist):
         yield _history(rng, rng.randint(1, 25))
     for _ in range(n_mal):
@@ -1213,7 +1234,7 @@ def cases(rng, tier):
         yield from _exhaustive(rng)
     else:
         ex = _exhaustive(rng)
-        yield from rng.sample(ex, 6)
+        yield from rng.sample(ex, 10)
 
 
 def corpus():
